@@ -42,6 +42,8 @@ type change struct {
 	power int64
 }
 
+func (c change) String() string { return fmt.Sprintf("%X:%d", c.addr[:3], c.power) }
+
 func refFromReal(vs *types.ValidatorSet) refSet {
 	r := refSet{}
 	for _, v := range vs.Validators {
